@@ -8,9 +8,16 @@ import sys
 from .. import rt
 from ..models.litmodel import decode, scan_fstring
 
+# imported at module import time (CrossHair restores sys.path before analysing the conditions)
 if sys.path[0] != rt.REPO:
     sys.path.insert(0, rt.REPO)
+for _m in [m for m in sys.modules if m == "oneliner" or m.startswith("oneliner.")]:
+    del sys.modules[_m]
 U = importlib.import_module("oneliner.expr_unparse")
+import os as _os
+
+if not _os.path.realpath(U.__file__).startswith(_os.path.realpath(rt.REPO) + "/"):
+    raise ImportError("oneliner imported from %s, not from the tree under test %s" % (U.__file__, rt.REPO))
 
 
 def _clean(t):
